@@ -148,6 +148,8 @@ func (e *SpecEnv) eval(x SExpr) Value {
 		return e.bin(x)
 	case *SQuant:
 		return e.quant(x)
+	case *SComposite:
+		return e.composite(x)
 	case *SSet:
 		e.fail("set literal only allowed as operand of == with dom()")
 	case *SConv:
@@ -155,6 +157,43 @@ func (e *SpecEnv) eval(x SExpr) Value {
 	}
 	e.fail("unsupported spec expression %T", x)
 	return Value{}
+}
+
+// composite: a struct literal T{e1, ..., en} with positional fields.
+func (e *SpecEnv) composite(x *SComposite) Value {
+	var obj types.Object
+	switch t := x.Type.(type) {
+	case *SIdent:
+		obj = e.pkg.Types.Scope().Lookup(t.Name)
+	case *SSel:
+		if p := e.importedPkg(t.X.(*SIdent).Name); p != nil {
+			obj = p.Types.Scope().Lookup(t.Sel)
+		}
+	}
+	tn, ok := obj.(*types.TypeName)
+	if !ok {
+		e.fail("composite literal of unknown type")
+	}
+	ty := tn.Type()
+	if !isStruct(ty) {
+		e.fail("composite literal of non-struct type %s", ty)
+	}
+	si := e.vc.structInfo(ty)
+	if len(x.Elems) == 0 {
+		return Value{T: e.vc.zero(ty), Ty: ty}
+	}
+	if len(x.Elems) != len(si.FNames) {
+		e.fail("composite literal of %s needs %d positional fields", ty, len(si.FNames))
+	}
+	vals := make([]Term, len(x.Elems))
+	for i, el := range x.Elems {
+		v := e.retypeTo(e.eval(el), si.FTypes[i])
+		if bb, ok := v.Ty.(*types.Basic); ok && bb.Kind() == types.UntypedNil {
+			v = Value{T: e.vc.zero(si.FTypes[i]), Ty: si.FTypes[i]}
+		}
+		vals[i] = v.T
+	}
+	return Value{T: e.vc.mkStruct(ty, vals), Ty: ty}
 }
 
 func (e *SpecEnv) nilCoerce(a, b Value) (Value, Value) {
